@@ -57,7 +57,14 @@ where
             break;
         }
         match win!(aw, it.next()) {
-            Some(x) => yielded!(x),
+            Some(x) => {
+                yielded!(x);
+                if sess.taken % 2 == 1 {
+                    // the holder may move the iterator value between two steps
+                    let _p = Pause::new();
+                    it = *Box::new(it);
+                }
+            }
             None => {
                 sess.none();
                 for _ in 0..3 {
